@@ -21,7 +21,9 @@ with the patch).  Seeds whose patch no longer applied after repository repairs w
 One seed (C16-B: restore_svalue() returning before it reset its parser state) could no longer manifest after the repair
 f0bd2e1 made every restore start from a clean state, and was dropped; likewise C17-A (load_binary() skipping the
 inherited program's .b time check when the parent is already loaded) stopped manifesting after repair 46b1ffa gave every
-program a `newest_source` stamp that makes that check redundant.
+program a `newest_source` stamp that makes that check redundant; and C13-F (ASCII port: line cursor advanced after
+the process_input apply instead of before, visible only when the apply raised an error) stopped manifesting after repair
+aff5db5 made that apply a safe_apply (it was DETECTED, under the same keys as the defect itself, before the repair).
 
 | seed | property | mechanism | needs | result |
 |---|---|---|---|---|
